@@ -41,12 +41,12 @@ def exhaustive():
         ts = sorted(set(t for (t, _) in s.pre))
         ops = [(1, k) for k in (0, 1, 2)] + [(2, T) for T in sorted(set([max(0, ts[0] - 1)] + ts + [ts[-1] + 1]))]
         for a in ops:
-            yield R.Script(s.n, s.t, s.start, s.budget, [], s.table, s.pre, [a]).encode()
+            yield R.Script(s.n, s.t, s.start, s.budget, [], s.table, s.pre, [a], unit=s.unit).encode()
             if len(s.pre) <= 2 or s.table == [[]]:
                 for b in ops + [(3, ts[0], 0), (3, ts[-1] + 1, 0)]:
-                    yield R.Script(s.n, s.t, s.start, s.budget, [], s.table, s.pre, [a, b]).encode()
+                    yield R.Script(s.n, s.t, s.start, s.budget, [], s.table, s.pre, [a, b], unit=s.unit).encode()
                     if b[0] == 3:
-                        yield R.Script(s.n, s.t, s.start, s.budget, [], s.table, s.pre, [a, b, (1, 1)]).encode()
+                        yield R.Script(s.n, s.t, s.start, s.budget, [], s.table, s.pre, [a, b, (1, 1)], unit=s.unit).encode()
 
 
 monitor = R.monitor_c10
